@@ -1,4 +1,5 @@
-import NA.Model.MaskSinks
+import NA.Model.MaskXml
+import NA.Model.MaskSsh
 import NA.Core.IOUtil
 /-! Driver for C17.  One case per line, fields separated by TAB, every string argument hex encoded
 (two lower-case hex digits per byte; byte `b` becomes `Char.ofNat b`).
@@ -8,6 +9,7 @@ import NA.Core.IOUtil
   key   S            -> hex (maskKey S)
   esc   S            -> hex (queryEscape S)
   unesc S            -> hex (queryUnescape S) | ERR
+  xmlkey BODY        -> ok:hex(key) | err:hex(error text; syntax errors: class only) | unsupported
   dolog S            -> hex (doLog S)
   enc   K1 V1 K2 V2… -> hex (valuesEncode [(K1,V1),…])
   keygen ADDR USER PASS KIND A B  -> model of getAPIKey, see `NA.Mask.keygen`
@@ -83,6 +85,34 @@ def parseReqs (s : String) : Option (List Req) :=
 def unhexList (s : String) : Option (List Str) :=
   if s == "-" then some [] else (s.splitOn ",").mapM unhex
 
+def parseDev (s : String) : Option DevType :=
+  match s with
+  | "asa" => some .asa
+  | "ios" => some .ios
+  | "linux" => some .linux
+  | _ => none
+
+/-- segments: `f:hex` (complete) / `p:hex` (what had arrived when goexpect gave up), comma separated -/
+def parseSegs (s : String) : Option (List Seg) :=
+  if s == "-" then some [] else
+  (s.splitOn ",").mapM fun x =>
+    match x.splitOn ":" with
+    | ["f", h] => (unhex h).map Seg.full
+    | ["p", h] => (unhex h).map Seg.part
+    | _ => none
+
+/-- tail: `hexsend:hexseg` or `hexsend:~` (no segment followed), comma separated -/
+def parseTail (s : String) : Option (List (Str × Option Str)) :=
+  if s == "-" then some [] else
+  (s.splitOn ",").mapM fun x =>
+    match x.splitOn ":" with
+    | [c, "~"] => (unhex c).map fun c => (c, none)
+    | [c, g] => do
+      let c ← unhex c
+      let g ← unhex g
+      pure (c, some g)
+    | _ => none
+
 def parseNsxLogin (s : String) : Option NsxLogin :=
   match s.splitOn ":" with
   | ["terr", m, _] => (unhex m).map .terr
@@ -120,6 +150,22 @@ def answer (line : String) : String :=
         | some addr, some user, some pass, some name, some ip, some [kg], some key, some reqs, some reps =>
           showSinks (panosRun addr user pass name ip kg key reqs reps)
         | _, _, _, _, _, _, _, _, _ => "bad-input"
+      | "sshsess", [dev, pass, host, banner, errText, segs, applies, reads, errLines] =>
+        match parseDev dev, unhex pass, unhex host, unhex banner, unhex errText, parseSegs segs, unhexList reads, unhex errLines with
+        | some dt, some pass, some host, some banner, some errText, some segs, some reads, some errLines =>
+          -- the modelled phase consumes segments and predicts sends; whatever the device read beyond
+          -- them is the tail (commands of the change script), paired with the segments that followed
+          let o := run pass errText (loadProg dt host banner) [] segs
+          let tailReads := reads.drop (sendsOf o.ops).length
+          let tailReads := if errLines.isEmpty && tailReads.getLast? == some "exit".toList then tailReads.dropLast else tailReads
+          let segText : Seg → Str := fun g => match g with | .full x => x | .part x => x
+          let rec pair : List Str → List Seg → List (Str × Option Str)
+            | [], _ => []
+            | c :: cs, [] => (c, none) :: pair cs []
+            | c :: cs, g :: gs => (c, some (segText g)) :: pair cs gs
+          let ops := sessionOps (loadProg dt host banner) pass errText segs (applies == "1") (pair tailReads o.rest) errLines
+          s!"sends={hexLines (sendsOf ops)}\tfinished={hexLines [if o.finished then ['1'] else ['0']]}\t{showSinks (sshRun ops)}"
+        | _, _, _, _, _, _, _, _ => "bad-input"
       | "nsx", [pre, user, pass, token, cookie, name, login, reqs, reps] =>
         match unhex pre, unhex user, unhex pass, unhex token, unhex cookie, unhex name, parseNsxLogin login,
             parseNsxReqs reqs, parseReplies reps with
@@ -151,6 +197,11 @@ def answer (line : String) : String :=
         | none => "bad-input"
       | "nsxlogin", [pre, user, pass, status] => hexLines (nsxLoginLog pre user pass status)
       | "sshlog", outs => hex (sshLog outs)
+      | "xmlkey", [body] =>
+        match parseAPIKeyM body with
+        | .ok k => "ok:" ++ hex k
+        | .unsupported => "unsupported"
+        | r => "err:" ++ hex ((r.errText).getD [])
       | _, _ => "bad-input"
   | [] => "bad-input"
 
